@@ -1399,10 +1399,11 @@ func TestC14(t *testing.T) {
 		}
 		k := c14MetaKey(v)
 		n := reps
-		if (v.Shape != "" && v.Shape != "plain") || !c14DefaultNs(v) {
-			n = reps - 1 // the shape and lexical-form dimensions: one representative per case and run in the quick tier, two in the thorough one (the seed picks which)
+		if v.Shape != "" && v.Shape != "plain" {
+			n = reps - 1 // the shape dimension: one representative per case and run in the quick tier, two in the thorough one (the seed picks which)
 		}
 		if !c14DefaultNs(v) {
+			n = 1 // the lexical-form dimension: one document per case and run (the seed picks prefix, foreign namespace, value); the thorough tier has more forms, a wider cover and every way in
 			mu.Lock()
 			nsCount[v.Ns+"/"+v.Class]++
 			mu.Unlock()
